@@ -3,6 +3,8 @@ EXTENDS MPTTxn
 TPaths == { <<"0","0","0","0">>, <<"0","0","1","1">>, <<"0","1">> }
 TPaths4 == TPaths \cup { <<>> }
 TPaths2 == { <<"0","0","0","0">>, <<"0","0","1","1">> }
+\* sibling family: two keys below a 4-character extension, a key that splits that extension in the middle, a value on the branch
+TPathsSib == { <<"0","0","0","0","1","1">>, <<"0","0","0","0","2","2">>, <<"0","0","5","5">>, <<"0","0","0","0">> }
 TValues == {"a"}
 TValues2 == {"a", "b"}
 TChildren == {1, 2}
